@@ -246,9 +246,11 @@ impl<A: LoadableAsset + SeekableAsset> TapeImpl for Tap<A> {
     }
 
     fn stop(&mut self) {
-        let state = self.state;
-        self.prev_state = state;
-        self.state = TapeState::Stop;
+        // Already stopped tape must keep the state saved by the first stop
+        if self.state != TapeState::Stop {
+            self.prev_state = self.state;
+            self.state = TapeState::Stop;
+        }
     }
 
     fn play(&mut self) {
@@ -268,6 +270,10 @@ impl<A: LoadableAsset + SeekableAsset> TapeImpl for Tap<A> {
         self.buffer_offset = 0;
         self.current_block_size = None;
         self.delay = 0;
+        // Stopped tape should start from the first block on the next play
+        if self.state == TapeState::Stop {
+            self.prev_state = TapeState::Stop;
+        }
         self.asset.seek(SeekFrom::Start(0))?;
         self.tape_ended = false;
         Ok(())
